@@ -28,6 +28,37 @@ def writer_layout(ctx, fi: FuncInfo):
                 # body = []; j = {node.name: body}: appends go to the local list
                 holder, name_expr, body_list = n.targets[0].id, n.value.keys[0], v.id
     if holder is None:
+        # body = [{k: v}, ...]; body.append({k: v}); ...; {node.name: body}  (returned or assigned)
+        for n in ast.walk(fi.node):
+            lit = n.value if isinstance(n, (ast.Return, ast.Assign)) else None
+            if isinstance(lit, ast.Dict) and len(lit.keys) == 1 and isinstance(lit.values[0], ast.Name):
+                L = lit.values[0].id
+                defs = [a for a in ast.walk(fi.node) if isinstance(a, ast.Assign) and len(a.targets) == 1 and isinstance(a.targets[0], ast.Name) and a.targets[0].id == L]
+                if len(defs) == 1 and isinstance(defs[0].value, ast.List) and all(isinstance(x, ast.Dict) and len(x.keys) == 1 for x in defs[0].value.elts):
+                    out = []
+                    for x in defs[0].value.elts:
+                        k = prog.const(fi.module, x.keys[0])
+                        out.append((k if isinstance(k, str) else None, x.values[0], defs[0]))
+
+                    def visit2(stmts):
+                        for s_ in stmts:
+                            if isinstance(s_, ast.Expr) and isinstance(s_.value, ast.Call) and isinstance(s_.value.func, ast.Attribute) \
+                                    and s_.value.func.attr in ("append", "insert") and isinstance(s_.value.func.value, ast.Name) and s_.value.func.value.id == L and s_.value.args:
+                                a_ = s_.value.args[-1]
+                                if s_.value.func.attr == "insert":
+                                    out.append(("?insert", a_, s_))
+                                elif isinstance(a_, ast.Dict) and len(a_.keys) == 1:
+                                    k_ = prog.const(fi.module, a_.keys[0])
+                                    out.append((k_ if isinstance(k_, str) else None, a_.values[0], s_))
+                                else:
+                                    out.append((None, a_, s_))
+                            elif isinstance(s_, (ast.For, ast.While, ast.If, ast.With, ast.Try)):
+                                for m_ in ast.walk(s_):
+                                    if isinstance(m_, ast.Call) and isinstance(m_.func, ast.Attribute) and m_.func.attr in ("append", "insert", "extend") \
+                                            and isinstance(m_.func.value, ast.Name) and m_.func.value.id == L:
+                                        out.append(("?conditional", None, s_))
+                    visit2(fi.node.body)
+                    return out, lit.keys[0], L
         # the whole document built as one literal: {node.name: [{key: value}, ...]}
         for n in ast.walk(fi.node):
             lit = n.value if isinstance(n, (ast.Return, ast.Assign)) else None
